@@ -233,7 +233,10 @@ package sm
 //@ # the DWR handler (free variable sm).  NOTE: when Settings.OriginStateID is set the handler appends an Origin-State-Id
 //@ # AVP to the REQUEST m, not to the answer (m.NewAVP where a.NewAVP was meant); the frame below says so.
 //@ func handleDWR$1(c, m)
-//@   property C13 C16
+//@   property C10 C13 C16
+//@   # C10: the watchdog handlers run for peers that have not shaken hands too (the index registration of the DWR handler
+//@   # is not gated); they must leave the connection's context - where the gate looks - exactly as they found it
+//@   ensures [C10] the_watchdog_leaves_the_gate_as_it_found_it: connctx(c) == old(connctx(c))
 //@   absidx
 //@   requires smok(sm) && c != nil && isptr(c) && reqok(m)
 //@   assume default_dictionary_initialised: dict.Default != nil && pwf(dict.Default)
@@ -249,7 +252,8 @@ package sm
 //@ # the DWA handler (free variables sm, dwac): a parse failure is reported; nothing else is touched.  The acknowledgement
 //@ # itself is a non-blocking channel send, which the sequential fragment does not observe.
 //@ func handleDWA$1(c, m)
-//@   property C13
+//@   property C10 C13
+//@   ensures [C10] the_watchdog_leaves_the_gate_as_it_found_it: connctx(c) == old(connctx(c))
 //@   requires smok(sm) && c != nil && m != nil && !closed(dwac)
 //@   modifies reports(), unmarshalled(m), dwaverdict(m), dwaof(m), fresh
 //@   ensures [C13] malformed_answer_is_reported: dwaverdict(m) != nil ==> reports() == old(reports()) + 1
